@@ -136,7 +136,7 @@ class C13(Check):
                    'the gap); slow-poll bound is 3 x slowinterval + (number of polled parameters + 1) x sweep',
                    'pre-emption at lock operations, plus line events of frappy/modulebase.py in a third of the runs']
     PROBES = ('c13.failing-poll', 'c13.interval-change', 'c13.fast-poll', 'c13.trigger', 'clock.jump',
-              'c13.comfail-at-startup', 'c13.back-to-back-requests')
+              'c13.comfail-at-startup', 'c13.back-to-back-requests', 'c13.unpolled-module')
 
     def gen_case(self, rng, tier):
         nmod = rng.choice([1, 2, 2, 3, 4])
@@ -197,7 +197,7 @@ class C13(Check):
             ops.append(op)
         shape = {'p_switch': rng.choice([0.05, 0.2, 0.5]),
                  'line_gaps': rng.choice([0, 0, 10, 14]),
-                 'horizon': horizon, 'mods': mods}
+                 'horizon': horizon, 'mods': mods, 'passive': rng.random() < 0.3}
         return {'shape': shape, 'ops': ops}
 
     # ------------------------------------------------------------------ run
@@ -223,6 +223,28 @@ class C13(Check):
             if shared:
                 c['io'] = 'io'
             cfg[spec['name']] = c
+        if shape.get('passive'):
+            # a module which is not to be polled at all (enablePoll = False); it has a configured value to write, so
+            # it is handed to the poll thread (of the shared io) for that one write
+            def p_rec(fname):
+                def f(self, *args):
+                    rec(self.name, fname, 'start', threading.current_thread().name)
+                    rec(self.name, fname, 'end', threading.current_thread().name, 'ok')
+                    return args[0] if args else 1
+                return f
+            pns = {'__module__': __name__, 'enablePoll': False,
+                   'w0': Parameter('written at start-up', IntRange(), default=0, readonly=False),
+                   'write_w0': p_rec('write_w0'), 'read_w0': p_rec('read_w0'),
+                   'read_value': (lambda self, f=p_rec('read_value'): float(f(self))),
+                   'doPoll': (lambda self, f=p_rec('doPoll'): f(self) and None)}
+            if shared:
+                pns['io'] = Attached()
+            Passive = type('PassiveMod', (Readable,), pns)
+            classes.append(Passive)
+            cfg['pz'] = {'cls': Passive, 'description': 'not polled', 'w0': {'value': 5}}
+            if shared:
+                cfg['pz']['io'] = 'io'
+            sim.count('c13.unpolled-module')
         srv = world.make_server('n', cfg)
         srv._processCfg()
         ctx['started'] = sim.vnow()
@@ -412,6 +434,12 @@ class C13(Check):
                 if bad:
                     res.append(Violation('C13.nopoll-read', 'poller', f'{mname}.read_{pname} called by the poller '
                                                                       f'at t={bad[0][0]:.3f}'))
+        # a module with enablePoll = False is never polled: neither its doPoll nor any of its read functions
+        bad = [e for e in log if e[2] == 'pz' and (e[3] == 'doPoll' or e[3].startswith('read_')) and 'pollThread' in (e[5] or '')]
+        if bad:
+            res.append(Violation('C13.nopoll-read', 'unpolled-module',
+                                 f'module pz has enablePoll = False, but the poller called pz.{bad[0][3]} at t={bad[0][0]:.3f} '
+                                 f'({len(bad)} calls)'))
         return res
 
 
